@@ -1271,7 +1271,35 @@ func BatchLenMonotoneRule(w *World, b *Backend, r *Result, rule string) {
 				}
 			}
 			if !idxPlusOne {
-				continue // e.g. the copy helper stores its own element count
+				// a count of elements handled (counter started at a constant and incremented):
+				// storing it as the length is only right where it exceeds the current length
+				isCount := false
+				for j := 0; j < i; j++ {
+					tj, _ := flattenPUA(lines[j].Variant)
+					if regexp.MustCompile(`^set "` + regexp.QuoteMeta(val) + `=\d+"$`).MatchString(strings.TrimSpace(tj)) {
+						isCount = true
+					}
+				}
+				if !isCount {
+					continue
+				}
+				n++
+				key := fmt.Sprintf("lenmono:batch:%s:count", h)
+				// same-line guard: if <val> gtr <len> call :setter …   or an enclosing block with that condition
+				guard := regexp.MustCompile(`(?i)^if "?!?` + regexp.QuoteMeta(val) + `!?"? (gtr|geq) "?!?_len!?"? `).MatchString(t)
+				for _, fr := range stack {
+					for _, c := range fr {
+						if (c.x == val && c.y == "_len" && (c.op == "gtr" || c.op == "geq")) || (c.x == "_len" && c.y == val && (c.op == "lss" || c.op == "leq")) {
+							guard = true
+						}
+					}
+				}
+				if guard {
+					r.Ok(rule, key, w.Pos(l.Em.Pos), "the element count is stored as the length only where it exceeds the current length")
+				} else {
+					r.Bad(rule, key, w.Pos(l.Em.Pos), fmt.Sprintf("helper %s stores the number of elements it handled (%s) as the new length unconditionally: copying a short list into a longer one shortens the destination (copy(dst, []int{9}) on three elements leaves len(dst) == 1, Bash keeps 3)", h, val))
+				}
+				continue
 			}
 			n++
 			key := fmt.Sprintf("lenmono:batch:%s", h)
